@@ -221,10 +221,18 @@ func makeBoxes(tier string) []*Box {
 	plagRestr := []string{"only node 4 (the learner) enters persist-lag mode", "first election (term 2) by node 1 only, second election (term 3) by node 3 only",
 		"proposals and the conf change at the leader only", "conf change: addLearnerV2(4)", "only nodes 2 and 3 crash",
 		"no deviations: every message is delivered in FIFO order, driver events happen at quiescent points (messages to a node that is down are lost)"}
+	plagKindsQ := plagKinds
+	if !thorough {
+		// quick: the learner's application is slow from the start (plag(4) only while its log is
+		// empty) and stays slow (no unplag): 0.056 M instead of 0.10 M states - the box has to
+		// close inside a 9 s slice at load average 90+ (measured alone: 5.5 s)
+		plagKindsQ &^= 1 << evUnplag
+		plagRestr = append(plagRestr, "plag(4) only while node 4's log is still empty; node 4 does not leave persist-lag mode (no unplag)")
+	}
 	add(&Box{ID: "B12", Mode: "B", What: "persist lag on a learner: node 4 holds whole Readys (nothing persisted, sent or applied) while it keeps stepping messages; it receives the whole log in one MsgApp and, before it has persisted it, the first MsgApp of a later-term leader whose log is shorter (truncation in the middle of the unstable entries the application is about to persist)",
 		Cfg: plag4, Bud: Budget{MaxTerm: 3, Proposals: 2, Crashes: 2, ConfChanges: 1, Plags: 1, Persists: 2},
-		Depth: 400, MaxDev: 0, Kinds: plagKinds, Devs: kinds(evDrop),
-		LeaderPropose: true, LagAt: 4, CampaignBy: map[uint64][]int{0: {}, 1: {1}, 2: {3}}, CrashAt: []int{2, 3}, ConfVariants: []uint16{ccAddLearner}, Restrictions: plagRestr, CollectAll: true, Share: pick(10, 20)})
+		Depth: 400, MaxDev: 0, Kinds: plagKindsQ, Devs: kinds(evDrop),
+		LeaderPropose: true, LagAt: 4, CampaignBy: map[uint64][]int{0: {}, 1: {1}, 2: {3}}, CrashAt: []int{2, 3}, PlagEmpty: !thorough, ConfVariants: []uint16{ccAddLearner}, Restrictions: plagRestr, CollectAll: true, Share: pick(14, 20)})
 	if thorough {
 		// B12b: the restrictions on who crashes and who wins term 3 are dropped (the old leader or
 		// the learner itself may crash: a crash of the learner while it holds a Ready loses the
@@ -307,6 +315,7 @@ func makeBoxes(tier string) []*Box {
 			ConfVar []uint16         `json:"conf_variants"`
 			CampAt  uint8            `json:"campaign_at"`
 			CrashAt []int            `json:"crash_at"`
+			PlagE   bool             `json:"plag_empty"`
 			Bud     Budget           `json:"budgets"`
 			MaxDev  int              `json:"max_deviations"`
 			Depth   int              `json:"max_depth"`
@@ -348,6 +357,7 @@ func makeBoxes(tier string) []*Box {
 			b.Cfg = withJoiners(b.Cfg, t.Joiners)
 		}
 		b.LagAt, b.CampaignBy, b.ConfVariants, b.CampaignAt, b.CrashAt = t.LagAt, t.CampBy, t.ConfVar, t.CampAt, t.CrashAt
+		b.PlagEmpty = t.PlagE
 		bs = append(bs, b)
 	}
 	for _, b := range bs {
